@@ -33,13 +33,16 @@ Params == {p \in {<<nv, nf, nss, ev, sb>> : nv \in UNION {NvSet(x) : x \in NssSe
 \* seam bit patterns served to the attribute connectivity decoder (bits beyond the list read as 0): none, all, alternating both ways, one seam at a time
 SeamPats == << <<>>, <<1, 1, 1, 1, 1, 1, 1, 1, 1, 1, 1, 1>>, <<0, 1, 0, 1, 0, 1, 0, 1, 0, 1, 0, 1>>, <<1, 0, 1, 0, 1, 0, 1, 0, 1, 0, 1, 0>>,
               <<1>>, <<0, 1>>, <<0, 0, 1>>, <<0, 0, 0, 1>>, <<0, 0, 0, 0, 1>>, <<1, 1, 0, 0, 1, 1>> >>
+\* pairs of patterns for two attributes with connectivity of their own (indices into SeamPats)
+SeamPairs == << <<1, 2>>, <<2, 1>>, <<3, 4>>, <<4, 3>>, <<5, 6>>, <<6, 5>>, <<3, 2>>, <<5, 2>>, <<10, 3>>, <<7, 8>> >>
 RECURSIVE StrR(_)
 StrR(s) == IF s = <<>> THEN "" ELSE s[1] \o StrR(Tail(s))
 Row(p) == LET r == Decode(syms, p[1], p[2], p[3], p[4], p[5])  o == Order(r, p[2])  o2 == OrderPD(r, p[2]) IN
           [s |-> StrR(syms), nv |-> p[1], nf |-> p[2], nss |-> p[3], ev |-> p[4], sb |-> p[5], out |-> r.out, np |-> r.np, faces |-> r.faces,
            trav |-> o.trav, vidx |-> o.vidx, trav2 |-> o2.trav, vidx2 |-> o2.vidx, ppos |-> IF p[2] <= 6 THEN ParaPos(r, p[2], -50, 50) ELSE <<>>,
            cm |-> IF p[2] <= 6 /\ r.out = "acc" /\ o.trav = "" THEN [pat \in 1..3 |-> CmPos(r, p[2], pat - 1, -50, 50)] ELSE <<>>,
-           sm |-> IF p[2] <= 6 /\ r.out = "acc" /\ o.trav = "" THEN [k \in 1..Len(SeamPats) |-> [Seamed(r, p[2], SeamPats[k]) EXCEPT !.used = @] @@ [bits |-> SeamPats[k]]] ELSE <<>>]
+           sm |-> IF p[2] <= 6 /\ r.out = "acc" /\ o.trav = "" THEN [k \in 1..Len(SeamPats) |-> [Seamed(r, p[2], SeamPats[k]) EXCEPT !.used = @] @@ [bits |-> SeamPats[k]]] ELSE <<>>,
+           sm2 |-> IF p[2] <= 6 /\ r.out = "acc" /\ o.trav = "" THEN [k \in 1..Len(SeamPairs) |-> Seamed2(r, p[2], SeamPats[SeamPairs[k][1]], SeamPats[SeamPairs[k][2]]) @@ [b1 |-> SeamPats[SeamPairs[k][1]], b2 |-> SeamPats[SeamPairs[k][2]]]] ELSE <<>>]
 \* a string that does not start with E is refused at its first symbol whatever the parameters are: one tuple stands for all
 PSet == IF syms[1] = "E" \/ Params = {} THEN Params ELSE {CHOOSE p \in Params : TRUE}
 EmitRows == (Emit /\ Len(syms) >= 1) => \A p \in PSet : PrintT(ToJson(Row(p)))
